@@ -36,7 +36,9 @@ func init() {
 	register(&Scenario{ID: "C08S", Run: func(s *kernel.Sim) { runC08(s, false) }})
 }
 
-var c08Classes = []string{"change-flow", "add-flow", "remove-flow", "bad-base64", "invalid-flow", "bad-quota", "gateway-config-only", "change-flow+quota", "shrink-flow", "bad-metrics", "change-metrics"}
+var c08Classes = []string{"change-flow", "add-flow", "remove-flow", "bad-base64", "invalid-flow", "bad-quota", "gateway-config-only", "change-flow+quota", "shrink-flow", "bad-metrics", "change-metrics",
+	// the same on a gateway that has no configuration file at all yet (nothing to back up)
+	"fresh+add-flow", "fresh+invalid-flow"}
 
 func probeFlow(name, url string, status int) string {
 	return flowDef{
@@ -229,7 +231,7 @@ func c08Payload(class string, endpoint string, old map[string]string) (body []by
 	gw, metricsCfg := "", ""
 	valid = true
 	complete := endpoint == "/apply_flows" // apply_flows replaces everything: send the complete set
-	if complete {
+	if complete && len(old) > 0 {
 		flows["f1.yaml"], flows["f2.yaml"] = old["flows/f1.yaml"], old["flows/f2.yaml"]
 		quotas["q.yaml"] = old["quotas/q.yaml"]
 	}
@@ -319,7 +321,8 @@ func c08Payload(class string, endpoint string, old map[string]string) (body []by
 	if metricsCfg != "" {
 		expect["metrics.yaml"] = metricsCfg
 	}
-	expect[c08DefaultMetrics] = old["metrics.yaml"] // written by newC08Env from the same source, never to change
+	dm, _ := os.ReadFile("/repo/proxy/metrics.yaml")
+	expect[c08DefaultMetrics] = string(dm) // written by newC08Env from the same source, never to change
 	return body, expect, valid
 }
 
@@ -356,6 +359,11 @@ func runC08(s *kernel.Sim, enumerate bool) {
 
 	hp := installHAProxy()
 	old := c08Old()
+	if strings.HasPrefix(class, "fresh+") {
+		old = map[string]string{}
+		class = strings.TrimPrefix(class, "fresh+")
+		s.Knobs["fresh_gateway"] = true
+	}
 	body, expectFiles, valid := c08Payload(class, endpoint, old)
 
 	// ---- phase 1: fault-free recording run lists the fault points of this update ----
